@@ -287,6 +287,30 @@ pub fn run(cfg: &RunCfg) -> (PropMeta, ShardOut, Map<String, Value>) {
         let none = BTreeSet::new();
         for i in 0..per {
             let mut r = Rng::for_case(cfg.seed, TAG, shard as u64, i as u64);
+            // one file in twenty-five has the layout of linearized documents: the newest cross-reference section in
+            // front, its Prev pointing forward to the main section (written by C07's direct writer)
+            if i % 25 == 7 {
+                let f = crate::props::c07::front_section_file(&mut r);
+                out.evaluations += 1;
+                out.count("files_front_section_layout");
+                out.digests.insert(crate::prng::fnv_bytes(&f.bytes));
+                let diffs = match crate::props::catch(|| Document::load_mem(&f.bytes)) {
+                    Err(p) => vec![((0, 0), format!("load_mem panicked: {}", p))],
+                    Ok(Err(e)) => vec![((0, 0), format!("load_mem failed: {:?}", e))],
+                    Ok(Ok(doc)) => diff_loaded(&f.expect, &doc, &BTreeSet::new()),
+                };
+                if let Some((_, msg)) = diffs.first() {
+                    let sig = "C02/table/front-section-layout".to_string();
+                    out.finding(Finding {
+                        signature: sig.clone(),
+                        what: format!("loaded document differs from what the file defines: {}", msg),
+                        witness: json!({"kind":"file","expect":rdoc_to_json(&f.expect),"containers":Vec::<u32>::new(),"signature":sig,"file_hex":hex(&f.bytes),"file_text":String::from_utf8_lossy(&f.bytes[..f.bytes.len().min(3000)])}),
+                    });
+                } else {
+                    out.count("files_loaded_equal");
+                }
+                continue;
+            }
             let maxo = 5 + r.usize_below(55);
             let d = legal_doc(&mut r, maxo);
             let style = if r.bool() { XrefStyle::Table } else { XrefStyle::Stream };
@@ -329,7 +353,7 @@ pub fn run(cfg: &RunCfg) -> (PropMeta, ShardOut, Map<String, Value>) {
     });
     let meta = PropMeta {
         level: "exploration",
-        rule: "random legal abstract documents serialised by the independent reference writer (random white-space/comments/EOL style, number/name/string spellings, object order and gaps, multi-subsection tables, xref streams with varying W/Index, object streams, indirect Length, Flate/LZW/ASCII85 + PNG predictors on structural streams, junk before the header; one file in five with one or two incremental updates) -> Document::load_mem -> compared with the abstract document. distinct = distinct file bytes; per-feature file counts in counters.".into(),
+        rule: "random legal abstract documents serialised by the independent reference writer (random white-space/comments/EOL style, number/name/string spellings, object order and gaps, multi-subsection tables, xref streams with varying W/Index, object streams, indirect Length, Flate/LZW/ASCII85 + PNG predictors on structural streams, junk before the header; one file in five with one or two incremental updates, one in twenty-five in the front-section layout of linearized files) -> Document::load_mem -> compared with the abstract document. distinct = distinct file bytes; per-feature file counts in counters.".into(),
         assumptions: vec![
             "only legal files: no NUL in names, Root present, one generation per number, same xref style in a file; hybrid XRefStm files and later-revision free entries are outside the domain".into(),
             "byte offsets are relative to the %PDF- header when junk precedes it".into(),
